@@ -890,6 +890,9 @@ struct Concrete {
     /// field names the client sent as field names (lower-case) - anything else read by a backend that
     /// sozu does not add itself was smuggled through a value
     names: Vec<String>,
+    /// trailer field names a backend may read if the probe is forwarded (after sozu's elision of
+    /// routing / identity fields, pkawa::handle_trailer)
+    trailers: Vec<String>,
     desc: String,
 }
 
@@ -991,6 +994,7 @@ fn concretise_h1(c: &Value, code: &Value, lane: &Lane, rng: &mut Rng) -> Concret
     let (plan, n) = h1_body_plan(c, code);
     let mut body = Vec::new();
     let mut wire_body: Vec<u8> = Vec::new();
+    let mut trailers: Vec<String> = Vec::new();
     match plan {
         "cl" => { body = rng.pick(&["hello", "\r\n\r\nG", "0\r\n\r\n", "GET /"]).as_bytes()[..n.min(5)].to_vec(); wire_body = body.clone(); }
         "chunked" => {
@@ -998,7 +1002,7 @@ fn concretise_h1(c: &Value, code: &Value, lane: &Lane, rng: &mut Rng) -> Concret
             let k = c["chunk"].as_str().unwrap_or("valid");
             let s = match k {
                 "valid" => rng.pick(&["5\r\nhello\r\n0\r\n\r\n", "2\r\nhe\r\n3\r\nllo\r\n0\r\n\r\n", "05\r\nhello\r\n0\r\n\r\n", "5\r\nhello\r\n00\r\n\r\n", "1\r\nh\r\n4\r\nello\r\n0\r\n\r\n"]),
-                "trailers" => { rng.pick(&["5\r\nhello\r\n0\r\nX-T: 1\r\n\r\n", "5\r\nhello\r\n0\r\nX-T: 1\r\nX-U: 2\r\n\r\n"]) }
+                "trailers" => { trailers = vec!["x-t".into(), "x-u".into()]; rng.pick(&["5\r\nhello\r\n0\r\nX-T: 1\r\n\r\n", "5\r\nhello\r\n0\r\nX-T: 1\r\nX-U: 2\r\n\r\n"]) }
                 "badsize" => rng.pick(&["5\r\nhello\r\nZZ\r\n\r\n", "0x5\r\nhello\r\n0\r\n\r\n", "+5\r\nhello\r\n0\r\n\r\n", "5\r\nhelloXX0\r\n\r\n", " 5\r\nhello\r\n0\r\n\r\n", "-1\r\nhello\r\n0\r\n\r\n", "5\r\nhello\r\n-0\r\n\r\n"]),
                 "ext" => rng.pick(&["5;ext=1\r\nhello\r\n0\r\n\r\n", "5\r\nhello\r\n0;a=b\r\n\r\n", "5;x\r\nhello\r\n0\r\n\r\n"]),
                 _ => rng.pick(&["5\nhello\n0\n\n", "5\r\nhello\n0\r\n\r\n", "5\r\nhello\r\n0\n\n"]),
@@ -1021,7 +1025,7 @@ fn concretise_h1(c: &Value, code: &Value, lane: &Lane, rng: &mut Rng) -> Concret
     }
     cuts.sort(); cuts.dedup(); cuts.retain(|&x| x > 0 && x < bytes.len());
     desc.push_str(&format!("pipelined={pipelined} cuts={cuts:?}"));
-    Concrete { h1_bytes: bytes, h2: H2Probe::default(), pipelined, cuts, target, body, names, desc }
+    Concrete { h1_bytes: bytes, h2: H2Probe::default(), pipelined, cuts, target, body, names, trailers, desc }
 }
 
 fn concretise_h2(c: &Value, lane: &Lane, rng: &mut Rng) -> Concrete {
@@ -1115,7 +1119,8 @@ fn concretise_h2(c: &Value, lane: &Lane, rng: &mut Rng) -> Concrete {
     pr.pad_data = rng.chance(30);
     pr.gap_ms = if rng.chance(50) { 0 } else { 25 };
     let desc = format!("cont={} pad={} gap={}ms", pr.split_continuation, pr.pad_data, pr.gap_ms);
-    Concrete { h1_bytes: vec![], h2: pr, pipelined: true, cuts: vec![], target, body, names, desc }
+    let trailers = if matches!(tr, "plain" | "ident") { vec!["x-t".to_string()] } else { vec![] };
+    Concrete { h1_bytes: vec![], h2: pr, pipelined: true, cuts: vec![], target, body, names, trailers, desc }
 }
 
 // =====================================================================================
@@ -1190,6 +1195,16 @@ fn judge(lane: &Lane, case: &Value, conc: &Concrete, cobs: &ClientObs, bobs: &Ba
                 out.push(Verdict { class: "smuggled-field-line".into(), detail: ctx(json!({"name": n})) });
             }
         }
+        // every field line a backend reads was sent as a field line by the client, or is one of sozu's own
+        if r.target != "/sentinel" {
+            const SOZU: &[&str] = &["host", "x-forwarded-for", "forwarded", "x-forwarded-port", "x-forwarded-proto", "x-request-id", "sozu-id",
+                "content-length", "transfer-encoding", "connection", "x-plain", "x-real-ip"];
+            for n in &r.names {
+                if !SOZU.contains(&n.as_str()) && !conc.names.contains(n) && !(h2c && n.starts_with(':')) {
+                    out.push(Verdict { class: "unexpected-field-line".into(), detail: ctx(json!({"name": n, "sent_names": conc.names})) });
+                }
+            }
+        }
         if r.target.contains("smuggled") { out.push(Verdict { class: "smuggled-request".into(), detail: ctx(json!({"target": r.target})) }); }
         // routing agrees with the Host the backend reads
         let h = host_of(lane, &r.host);
@@ -1213,6 +1228,11 @@ fn judge(lane: &Lane, case: &Value, conc: &Concrete, cobs: &ClientObs, bobs: &Ba
         }
         if !partials.is_empty() { out.push(Verdict { class: "forward-incomplete".into(), detail: ctx(json!({"partials": partials})) }); }
         for r in &probe_reqs {
+            for t in &r.trailers {
+                if !conc.trailers.contains(t) {
+                    out.push(Verdict { class: "trailer-not-elided".into(), detail: ctx(json!({"trailer": t, "allowed": conc.trailers})) });
+                }
+            }
             if !h2c && r.complete && r.body != conc.body {
                 out.push(Verdict { class: "body-differs".into(), detail: ctx(json!({"sent": lossy(&conc.body), "read": lossy(&r.body)})) });
             }
